@@ -1112,3 +1112,20 @@ def cache_forward(ctx):
     for attr, src in (("self.cache_validation_callback", "cache_validation_callback"), ("self.mmap_mode", "mmap_mode"), ("self.compress", "compress")):
         st = assigns_to(init, attr)
         ctx.check(bool(st) and dotted(st[0].value) == src, st[0] if st else init, "MemorizedFunc stores %s" % src)
+
+
+def dump_always_writes(ctx):
+    """Recomputing a damaged entry repairs it: dump_item writes (temp + rename) on every path, also when a
+    file already sits under the final name."""
+    f = S(ctx, "StoreBackendMixin.dump_item")
+    g = cfg_of(f)
+    csw = [c for c in calls_in(f) if call_name(c) == "self._concurrency_safe_write"]
+    ctx.need(csw, "dump_item no longer writes through _concurrency_safe_write")
+    early = [r for r in nodes_of_type(f, ast.Return) if not g.every_path_to(g.nodes_of(r), g.nodes_of_all(csw))]
+    ctx.check(not early and g.every_path_from([g.entry], g.nodes_of_all(csw), skip_exc=True), csw[0], "dump_item publishes the result on every normal path (an existing, possibly damaged output.pkl is replaced)",
+              "dump_item can return without writing (%s): a damaged entry that was just recomputed stays damaged and fails again on the next load" % (
+                  unparse(enclosing_stmt(early[0]) if early else csw[0], 50)))
+    ac = M(ctx, "MemorizedFunc._after_call")
+    d = [c for c in calls_in(ac) if call_name(c) == "self.store_backend.dump_item"]
+    ga = cfg_of(ac)
+    ctx.check(bool(d) and ga.every_path_from([ga.entry], ga.nodes_of_all(d)), d[0] if d else ac, "every recomputation stores its result")
